@@ -31,6 +31,17 @@ Theorem C12_race_free : forall shared_common s t1 t2 l,
   reachable N na lt true s -> (l <> LCommon \/ shared_common = false) ->
   raceb N na lt true shared_common s t1 t2 l = false.
 Proof. intros sc s t1 t2 l H Hl. apply race_free_inv; [exact HN | apply (inv_reachable N na lt HN); assumption | exact Hl]. Qed.
+
+(* schedule- and N-independence of the result: whenever walk_descents has returned, what it copied into x/H1 and its
+   return value are those of the sequential selection walk_spec (first trial step a >= 1, in order, that reduces the residual
+   w.r.t. step 0, else the last one; feasible = whether it reduces it) — a function of (na, lt) only: no N, no schedule *)
+Hypothesis Hna : 2 <= na.                     (* alpha[0] = 0 and alpha[1] = 1 always exist *)
+Theorem C12_deterministic : forall s,
+  reachable N na lt true s -> finished s -> result s = walk_spec na lt.
+Proof. exact (deterministic_spec N na lt HN Hna). Qed.
+Theorem C12_deterministic_first_good : forall s,
+  reachable N na lt true s -> finished s -> exists a, result s = Some (Some a, lt a 0) /\ is_first_good na lt a.
+Proof. exact (deterministic_reachable N na lt HN Hna). Qed.
 End C12.
 
 (* ---- the code as found ---- *)
@@ -56,5 +67,7 @@ Proof. exact ex_reading_reachable. Qed.
 Print Assumptions C12_no_deadlock.
 Print Assumptions C12_no_early_read.
 Print Assumptions C12_race_free.
+Print Assumptions C12_deterministic.
+Print Assumptions C12_deterministic_first_good.
 Print Assumptions C12_refuted_lost_wakeup.
 Print Assumptions C12_refuted_race_common.
